@@ -1223,6 +1223,10 @@ class MessageRouter:
         self._cb_peer_context_removed = None  # type: Optional[Callable[[str], None]]
         self._suppress_version_mismatch_warnings = False
 
+        # Serializes handing a message to the socket manager thread with stopping the router,
+        # so that a message is either refused or queued before the thread is told to close its sockets.
+        self._send_lock = threading.Lock()
+
     @property
     def suppress_version_mismatch_warnings(self) -> bool:
         """If set to `True`, no warnings will be issued when connecting to a
@@ -1282,8 +1286,11 @@ class MessageRouter:
         assert self._socket_manager is not None
 
         # Tell the socket manager to close all sockets.
-        self._thread.run_in_thread(self._socket_manager.close_all)
-        self._socket_manager = None
+        # From here on send_message() refuses remote messages; messages accepted before this point
+        # are already queued in the thread and get an error reply when the sockets are closed.
+        with self._send_lock:
+            self._thread.run_in_thread(self._socket_manager.close_all)
+            self._socket_manager = None
 
         # Stop the thread.
         self._thread.shutdown()
@@ -1523,18 +1530,22 @@ class MessageRouter:
                     "Can not send message from remote context {} to remote context {}"
                     .format(message.source_address.context_id, destination_context_name))
 
-            # Check that the socket manager is running (message router started).
-            socket_thread = self._thread
-            socket_manager = self._socket_manager
-            if (socket_thread is None) or (socket_manager is None):
-                raise QMI_MessageDeliveryException("Can not send message to {!r} - message router inactive"
-                                                   .format(message.destination_address))
+            # Hold the lock until the message is queued in the socket manager thread. Without it the router
+            # could be stopped in between and the message would be dropped without an error.
+            with self._send_lock:
 
-            # Let the socket manager handle remote message delivery.
-            if not socket_manager.has_peer_context(destination_context_name):
-                raise QMI_MessageDeliveryException("Can not send message to unknown context {!r}"
-                                                   .format(destination_context_name))
-            socket_thread.run_in_thread_arg(socket_manager.send_message, message)
+                # Check that the socket manager is running (message router started).
+                socket_thread = self._thread
+                socket_manager = self._socket_manager
+                if (socket_thread is None) or (socket_manager is None):
+                    raise QMI_MessageDeliveryException("Can not send message to {!r} - message router inactive"
+                                                       .format(message.destination_address))
+
+                # Let the socket manager handle remote message delivery.
+                if not socket_manager.has_peer_context(destination_context_name):
+                    raise QMI_MessageDeliveryException("Can not send message to unknown context {!r}"
+                                                       .format(destination_context_name))
+                socket_thread.run_in_thread_arg(socket_manager.send_message, message)
 
     def get_peer_context_names(self) -> List[str]:
         """Return a list of currently connected peer context names."""
